@@ -92,7 +92,12 @@ func main() {
 		turnK = func(i int, failAt int) {
 			cancelled := failAt == 1
 			before := views()[i]
-			if failAt <= 1 {
+			if failAt == 1 && r.Intn(2) == 0 {
+				// the other way a turn's operations all fail: the caller's context was cancelled (and, so that the failure does not
+				// race with the operation completing inside dragonboat, its deadline has passed as well)
+				ms[i].TurnCtx(cancelledCtx{})
+				run.Count("c14:failed_turn_by_cancellation")
+			} else if failAt <= 1 {
 				ms[i].Turn(cancelled)
 			} else {
 				sc := newStepCtx(0, 0)
@@ -314,6 +319,15 @@ func main() {
 						fail("leader_only_after_own_id", "leader-after-operation-that-did-not-confirm-it", fmt.Sprintf("server %d regards itself as leader after a %s that left the record naming %d (it named %d before)", id, kind, inst, recBefore))
 					}
 				}
+				// compare-and-swap, operation by operation: a vote that takes the record over from another holder is accepted only
+				// if that holder is the one the voter saw when it last read the record (or the record was vacant)
+				if kind == "vote" && !failOp && inst == id && recBefore != id && recBefore != 0 && !(before.has && before.inst == recBefore) {
+					seen := uint64(0)
+					if before.has {
+						seen = before.inst
+					}
+					fail("cas_exclusive", "vote-accepted-against-another-holder", fmt.Sprintf("server %d's vote was accepted although the record named %d at that moment and the voter had last seen %d there: the record had changed hands since, two campaigns against the same holder both succeeded", id, recBefore, seen))
+				}
 				if kind == "read" && before.leader && inflight[i] == nil && (failOp || recBefore != id) && vs[i].leader {
 					fail("step_down", "leader-kept-after-read", fmt.Sprintf("leader %d read the record (failed: %v, names %d) and stayed leader", id, failOp, recBefore))
 				}
@@ -480,6 +494,7 @@ func main() {
 			k := 2 + r.Intn(2)
 			sched := []string{fmt.Sprintf("%d servers, holder %d silent; followers %d and %d in lock step", n, inst, a+1, b+1)}
 			for rd := 0; rd < takeoverBound+4; rd++ {
+				wasA, wasB := views()[a].leader, views()[b].leader
 				sc := newStepCtx(k, 0)
 				done := make(chan struct{})
 				go func() { ms[a].TurnCtx(sc); close(done) }()
@@ -492,6 +507,12 @@ func main() {
 				case <-done:
 					ms[b].TurnCtx(context.Background())
 					sched = append(sched, fmt.Sprintf("turn %d; turn %d", a+1, b+1))
+				}
+				if vs := views(); !wasA && !wasB && vs[a].leader && vs[b].leader {
+					run.Violate(hx.Violation{Property: "C14", Clause: "cas_exclusive", Signature: "two-campaigns-against-one-holder-both-succeeded", Seq: s,
+						What: fmt.Sprintf("followers %d and %d campaigned against the same silent holder %d in one round (the first paused between its read and a later operation while the second took its whole turn) and both regard themselves as leader", a+1, b+1, inst),
+						Ops:  append([]string{}, sched...)})
+					break
 				}
 			}
 			now, _ := record()
@@ -715,3 +736,13 @@ func min(a, b int) int {
 	}
 	return b
 }
+
+// cancelledCtx: a context that has been cancelled and whose deadline has passed.
+type cancelledCtx struct{}
+
+var closedCh = func() chan struct{} { c := make(chan struct{}); close(c); return c }()
+
+func (cancelledCtx) Deadline() (time.Time, bool)   { return time.Now().Add(-time.Hour), true }
+func (cancelledCtx) Done() <-chan struct{}         { return closedCh }
+func (cancelledCtx) Err() error                    { return context.Canceled }
+func (cancelledCtx) Value(interface{}) interface{} { return nil }
